@@ -155,7 +155,7 @@ func genC38(t *rapid.T) c38Case {
 	case "regexp":
 		c.S = rapid.OneOf(rapid.StringMatching(`[a-c\.\*\+\?\(\)\[\]\|\\^$]{0,8}`), anyStr).Draw(t, "s")
 	case "protocol":
-		c.S = rapid.OneOf(rapid.SampledFrom([]string{"", "a", "a/b", "\xff", "a\xc3", "\xc3\xa9", "\x00"}), anyStr).Draw(t, "s")
+		c.S = rapid.OneOf(rapid.SampledFrom([]string{"", "a", "a/b", "\xff", "a\xc3", "\xc3\xa9", "\x00"}), anyStr, rapid.Custom(func(t *rapid.T) string { return gen.IllFormedUTF8(t, "ill") })).Draw(t, "s")
 		c.List = rapid.SliceOfN(rapid.SampledFrom([]string{"", "a", "b", "a", "\xff", "é"}), 0, 5).Draw(t, "list")
 	case "tptaddr":
 		c.S = rapid.OneOf(rapid.StringMatching(`[a-c|]{0,6}`), anyStr).Draw(t, "s")
